@@ -6,7 +6,7 @@
  */
 #include "vh.h"
 
-#define MAXL 200
+#define MAXL 260
 #define NSIG 10
 typedef struct { int n; int v[MAXL]; } ilist_t;
 typedef struct { int n; char v[MAXL][24]; } slist_t;
@@ -23,7 +23,7 @@ static void parse_ilist(ilist_t *l, const char *s)
 		long a = strtol(s, &e, 10), b = a;
 		if (e == s) break;
 		if (*e == '.' && e[1] == '.') { b = strtol(e + 2, &e, 10); }
-		for (long x = a; x <= b && l->n < MAXL; x++) l->v[l->n++] = (int)x;
+		for (long x = a; x <= b; x++) { if (l->n >= MAXL) vh_harness_fail("list in the matrix spec has more than %d entries", MAXL); l->v[l->n++] = (int)x; }
 		s = (*e == ',') ? e + 1 : e;
 	}
 }
@@ -32,7 +32,8 @@ static void parse_slist(slist_t *l, const char *s)
 	l->n = 0;
 	while (*s && *s != ';') {
 		size_t n = strcspn(s, ",;");
-		if (l->n < MAXL) { snprintf(l->v[l->n], sizeof(l->v[0]), "%.*s", (int)n, s); l->n++; }
+		if (l->n >= MAXL) vh_harness_fail("list in the matrix spec has more than %d entries", MAXL);
+		snprintf(l->v[l->n], sizeof(l->v[0]), "%.*s", (int)n, s); l->n++;
 		s += n;
 		if (*s == ',') s++;
 	}
